@@ -19,6 +19,9 @@ CHECKS = {
  "C11": ("Exhaustive operator x boundary-operand tables (bit-exact against M-ops), random constant trees, partially constant trees under AstVm before/after const_simplify over 8 valuations, const chains (named vs inlined lowering, debug-info values, cycles, undefined operations must be diagnosed).",
          "Logical operators compared by truthiness only; float->int casts outside i32 excluded; NaN payloads not compared.",
          "exhaustive boundary tables + property-based testing against a reference evaluator"),
+ "C12": ("Generated signatures (all letters and attributes, up to 16 parameters, padding anywhere) x argument lists (width-boundary values fitting and not, registers in allowed and immediate-only positions, Shift-JIS strings around block/buffer boundaries, consecutive calls for the furigana carry): emitted blob/mask/arg0 == M-codec's encoding; decompiled arguments == the originals; re-lowering the decompiled call reproduces the bytes; every input that cannot round-trip must produce a diagnostic or a failed compile.",
+         "M-codec is written from the documentation comments of the signature letters; it shares encoding_rs with truth for Shift-JIS (the codec is not what is under test). Jump arguments (o, t) are exercised by C02/C07/C13 instead.",
+         "property-based testing against an independent codec model + round trip"),
  "C13": ("Compile side: label sequences (absolute, relative, negative, constant-expression, wrapping) in nested blocks vs the label-arithmetic model on uniquely tagged instructions. Decompile side: raw streams with arbitrary stored times (and jumps) -> emitted labels re-evaluated by the model -> printed text recompiled -> stored times reproduced.",
          "Uses the generic TestLanguage (i32 times); field-width narrowing in real formats belongs to C03.",
          "property-based testing against a reference model + round trip"),
